@@ -330,3 +330,14 @@ Example spell_check_accepts :
   spell_check [(7%N, 0%N)] [mkrow "int64" (Some 7%N) (Accepted 0 7); mkrow "longlong" (Some 7%N) (Accepted 0 7);
                             mkrow "object" None Refused] = true.
 Proof. reflexivity. Qed.
+
+Theorem undefined_elem_refused e : defined_elem e = false ->
+  (forall s, mk_tensor e s = None) /\ (forall s, from_onnx (PTensor e s) = None).
+Proof. intros H. split; intros s; [exact (mk_tensor_refuses_undefined e s H)|exact (from_onnx_refuses_undefined e s H)]. Qed.
+
+Example broadcast_example :
+  broadcast (Some [DC 3; DC 1; DN "N"%string]) (Some [DC 4; DA]) = BShape (Some [DC 3; DC 4; DA]) /\
+  conf_shape [3; 1; 5]%N (Some [DC 3; DC 1; DN "N"%string]) /\ conf_shape [4; 5]%N (Some [DC 4; DA]) /\
+  np_broadcast [3; 1; 5]%N [4; 5]%N = Some [3; 4; 5]%N /\
+  broadcast (Some [DC 2; DA]) (Some [DC 3; DC 1]) = BRaise.
+Proof. repeat split; repeat constructor. Qed.
